@@ -871,6 +871,14 @@ class SymFloat:
         if n is None:
             self._finite_in_range()
             return SymInt(z3.fpToSBV(RNE, self.e, z3.BitVecSort(Cfg.bv_width)))
+        if isinstance(n, _int) and 0 <= n <= 6:
+            # CPython rounds the exact binary value half-even to n decimals and returns the nearest double.
+            # Done in binary128: x * 10^n is exact there (53 + 20 bits < 113), roundToIntegral sees exact ties,
+            # and the quotient's distance from any double midpoint (>= 2^-80 relative) rules out double rounding.
+            q = z3.FPSort(15, 113)
+            y = z3.fpMul(RNE, z3.fpFPToFP(RNE, self.e, q), z3.FPVal(10**n, q))
+            z = z3.fpDiv(RNE, z3.fpRoundToIntegral(RNE, y), z3.FPVal(10**n, q))
+            return SymFloat(z3.fpFPToFP(RNE, z, FP))
         raise Unsupported("round(float, n) in FP mode")
 
     def __float__(self):
